@@ -15,7 +15,7 @@ import string
 import common as C
 
 PID = "C05"
-DRIVER = [("C05", "TfPwaV.Model.Einsum", "Einsum.handle"), ("C05f", "TfPwaV.Model.Factorise", "Factorise.handle")]
+DRIVER = [("C05", "TfPwaV.Model.Einsum", "Einsum.handle"), ("C05f", "TfPwaV.Model.Factorise", "Factorise.handle"), ("C05y", "TfPwaV.Model.FactoriseY", "FactoriseY.handle")]
 LEAN_TARGETS = ["TfPwaV.Props.C05", "TfPwaV.Props.C05b"]
 PROP_MODULES = ["TfPwaV.Props.C05", "TfPwaV.Props.C05b"]
 ALL_MODULES = ["TfPwaV.Model.Einsum", "TfPwaV.Proofs.Einsum", "TfPwaV.Proofs.EinsumStep", "TfPwaV.Proofs.EinsumOrder", "TfPwaV.Proofs.EinsumLoop", "TfPwaV.Props.C05",
@@ -26,7 +26,7 @@ ASSUMPTIONS = [
     "einsum: the iteration order of the Python set `combined_index` inside ordered_indices (string-hash dependent) is observed by the harness in the same process and passed to the model (procOrder); when two labels of one contraction step get the same order value the model yields `tie` (no value defined) — on the unfixed tree this is known finding einsum:order-tie, on the fixed tree ordered_indices is strict and `tie` is unreachable (theorem rankFixed_injective)",
     "einsum_correct (Props/C05b.lean) covers the complete routine - ellipsis replacement, remove_size1, numpy-style size-1 broadcasting, the pairwise loop over ANY path, the final reshape - under three explicit hypotheses: (i) no operand repeats a label (otherwise the step is delegated to tf.einsum: einsum_repeated_index_delegates), (ii) consistent shapes: every axis has the size of its label or size 1, all dimensions positive (an empty tensor, dimension 0, is outside the theorem), every label full somewhere (einsum_consistent_assignment derives this from any assignment), (iii) the path is valid: non-empty, it reduces the operands to one, and the order values of the output labels increase along the output (einsum_path_ends_at_output / einsum_correct_reducing_path); (iii-b) is a statement about IEEE doubles computed by ordered_indices - Lean's Float is opaque - and is validated on every program: ordered_indices bit-for-bit against the model plus a direct monotonicity check; the harness counts how many of its programs lie inside the hypotheses (model op `hyp`, a decidable transcription of (i)-(iii) that is itself not proved equivalent to the Lean hypotheses)",
     "einsum: operands whose ellipses have different ranks are rejected by the routine (validate), so `...` is a plain substitution by fresh labels (replace_ellipsis_fresh: they cannot clash); the reference semantics for `...` is that substitution",
-    "strategies (kind R): tf.function / XLA compilation, the LazyCall tf.data pipeline, preprocessor wiring and the id()-based cache switch of AbsPDF.__call__ are runtime behaviour of TensorFlow: validated on the config zoo with tolerances 1e-10 (density) / 1e-8 (NLL, gradient), not proved",
+    "strategies (kind R): tf.function / XLA compilation and the LazyCall tf.data pipeline are runtime behaviour of TensorFlow: validated on the config zoo with tolerances 1e-10 (density) / 1e-8 (NLL, gradient), not proved; the id()-based switch of AbsPDF.__call__, the preprocessor / amplitude pipelines and cached_shape have Lean models (Props/C05d.lean) whose remaining assumptions are listed below",
     "cached-integral / cached-amplitude likelihood models are compared with the default model with all masses and widths fixed (their documented domain)",
 ]
 
@@ -36,6 +36,13 @@ LEAN_TARGETS = LEAN_TARGETS + CF.LEAN_TARGETS_EXTRA
 PROP_MODULES = PROP_MODULES + CF.PROP_MODULES_EXTRA
 ALL_MODULES = ALL_MODULES + CF.ALL_MODULES_EXTRA
 ASSUMPTIONS = ASSUMPTIONS + CF.ASSUMPTIONS_EXTRA
+
+import c05_shape as CS  # part Y: cached_shape / mask_factor, id()-switch, p4_directly / cached_angle (Model/FactoriseY.lean, Props/C05d.lean)
+assert CS.DRIVER_ENTRY in DRIVER
+LEAN_TARGETS = LEAN_TARGETS + CS.LEAN_TARGETS_EXTRA
+PROP_MODULES = PROP_MODULES + CS.PROP_MODULES_EXTRA
+ALL_MODULES = ALL_MODULES + CS.ALL_MODULES_EXTRA
+ASSUMPTIONS = ASSUMPTIONS + CS.ASSUMPTIONS_EXTRA
 
 TF_LIMITS = ("UnimplementedError", "ResourceExhaustedError")  # runtime limits of TensorFlow kernels, not of the routine
 LOWER = string.ascii_lowercase
@@ -1013,12 +1020,14 @@ def replay_wrapfun(r):
 def correspond(ctx, res):
     correspond_einsum(ctx, res)
     CF.correspond_factor(ctx, res)
+    CS.correspond_shape(ctx, res)
 
 
 def search(ctx, res):
     search_einsum(ctx, res)
     search_strategies(ctx, res)
     CF.search_factor(ctx, res)
+    CS.search_shape(ctx, res)
 
 
 def replay(ctx, payload):
@@ -1031,6 +1040,8 @@ def replay(ctx, payload):
         return replay_wrapfun(r)
     if r.get("kind") == "factor":
         return CF.replay_factor(ctx, r, payload.get("key"))
+    if r.get("kind") == "shape":
+        return CS.replay_shape(ctx, r, payload.get("key"))
     if payload.get("key") is None:
         print("replay file names a broken obligation, not a failing input: %s" % str(payload.get("broken"))[:3000])
         return 1
@@ -1038,7 +1049,7 @@ def replay(ctx, payload):
 
 
 MANIFEST = {
-    "text": "Lean theorems about an executable, step-by-step model of tf_pwa/einsum.py over an arbitrary commutative semiring. FULL routine (Props/C05b.lean): einsum_correct - for every expression (ellipsis included), every list of operands whose shapes are consistent up to numpy-style size-1 broadcasting, every contraction path that reduces the operands to one, both variants of ordered_indices: whenever einsum(expr, *args) returns a tensor it IS the reference contraction (sum over the non-output indices of the product of entries), same shape and same row-major data. Its ingredients, each for all inputs: einsum_step_correct(_bcast) - one call of tensor_einsum_reduce_sum (transpose, reshape with 1's, broadcast product, reduce_sum) equals the reference of its sub-expression, also when an index has dimension 1 in one operand and n in another; einsum_contract_early / einsum_loop_correct(_bcast) - induction over ANY path; einsum_remove_size1_reindex + einsum_removed_labels_have_size1 - remove_size1 and the final reshape are a re-indexing; replace_ellipsis_fresh - the substituted symbols cannot clash; einsum_consistent_assignment - the routine's size_map recovers every consistent size assignment; einsum_path_ends_at_output - a non-empty reducing path ends at the output layout when the order values increase along the output labels; declining cases: invalid expressions, order ties (impossible with the strict ranking: einsum_fixed_order_never_ties), a repeated index inside an operand is delegated to tf.einsum, never mis-computed (einsum_repeated_index_delegates). Factorised / cached strategies as algebra (Model/Factorise.lean, Props/C05c.lean, any commutative ring with conjugation, any sizes): params_vector_row_major, cached_eq_direct (+ helicity sum), factor_eq_direct / factor_total_eq_direct / factor_eq_cached - the cached_amp / base_factor forms equal the direct multilinear expression sum_chains prod_decays (sum_ls g_ls part_ls); cached_int_eq_direct - the cached integral sum_ab p_a conj(p_b) M_ab equals sum_events w |A|^2 GIVEN the cached tensors do not depend on the varied parameters (explicit hypothesis = fixed line-shape parameters; counterexample without it), cached_int_self_conjugate, int_matrix_entry_batch_additive. The models are tied to the code by exact comparison on integer-valued float64/complex128 tensors: einsum over every expression the amplitude builder emits for a zoo of decay structures plus seeded random expressions (ordered_indices bit-for-bit in IEEE doubles), build_params_vector / build_angle_amp_matrix / cached_amp / build_amp2s / FactorAmplitudeModel.get_amp_list / build_int_matrix / cached_int_mc / ModelCachedInt driven on a stub decay group; tf_pwa.einsum.einsum is compared with numpy.einsum directly and the cached functions with a numpy evaluation of the direct expressions. Every data: strategy (cached_amp, cached_shape, base_factor, cached_angle, p4_directly, lazy_call, use_tf_function, jit_compile, no_id_cached, cached_int / cached_amp / cfit cached likelihoods) is compared with plain eager evaluation on the zoo (1e-10 densities, 1e-8 NLL and gradient).",
-    "note": "Proved for all inputs: the complete einsum routine (hypotheses: no repeated index inside an operand; consistent positive shapes; valid path), the algebra of the cached / factorised amplitude and of the cached integral. Still validated only: (einsum) that the order values of ordered_indices increase along the output indices - a fact about IEEE doubles, Lean's Float is opaque - checked bit-for-bit and by a direct monotonicity test on every program; empty tensors (a dimension 0); that opt_einsum's path reduces the operands to one; TensorFlow kernels as array semantics. (strategies) the list model of Factorise.lean against TensorFlow reshape / broadcasting is validated by exact correspondence on a stub decay group; that the real DecayGroup serves tensors with the documented axes, the preprocessors' wiring, factorAmp additivity over inner helicities; tf.function / XLA equals eager, the LazyCall pipeline, the id()-based cache switch, the cached-integral and cached-amplitude likelihood objects - runtime behaviour of TensorFlow, checked on a zoo of five 3-body structures (spin 0, 1/2, 1, 3/2, 2; two of them with parity-violating decays and events of both charges, once with cp_trans False = helicity flip inside the amplitude and once with cp_trans True = parity-transformed momenta), with non-trivial per-event extras everywhere a strategy could drop them (event weights, background sample, charge_conjugation, eff_value / bg_value); per-charge residuals are recorded in the evidence. Known findings reproduced on every run until their patches land: einsum order ties (wrong tensor, hash-seed dependent), Model_cfit_cached ignoring the efficiency in the normalisation integral, WrapFun cache key. Trusted: Lean kernel, standard axioms, the harness, opt_einsum paths as inputs.",
-    "technique": "Lean 4 proof (finite-sum algebra over a commutative semiring / ring with conjugation, induction over operand lists and contraction paths, row-major layout and re-indexing lemmas, fold invariants for size_map) + exact differential correspondence with the implementation on integer tensors (einsum; cached / factorised builders on a stub decay group) + direct oracle search (numpy.einsum; numpy evaluation of the direct multilinear expression; eager evaluation for the strategies)",
+    "text": "Lean theorems about an executable, step-by-step model of tf_pwa/einsum.py over an arbitrary commutative semiring. FULL routine (Props/C05b.lean): einsum_correct - for every expression (ellipsis included), every list of operands whose shapes are consistent up to numpy-style size-1 broadcasting, every contraction path that reduces the operands to one, both variants of ordered_indices: whenever einsum(expr, *args) returns a tensor it IS the reference contraction (sum over the non-output indices of the product of entries), same shape and same row-major data. Its ingredients, each for all inputs: einsum_step_correct(_bcast) - one call of tensor_einsum_reduce_sum (transpose, reshape with 1's, broadcast product, reduce_sum) equals the reference of its sub-expression, also when an index has dimension 1 in one operand and n in another; einsum_contract_early / einsum_loop_correct(_bcast) - induction over ANY path; einsum_remove_size1_reindex + einsum_removed_labels_have_size1 - remove_size1 and the final reshape are a re-indexing; replace_ellipsis_fresh - the substituted symbols cannot clash; einsum_consistent_assignment - the routine's size_map recovers every consistent size assignment; einsum_path_ends_at_output - a non-empty reducing path ends at the output layout when the order values increase along the output labels; declining cases: invalid expressions, order ties (impossible with the strict ranking: einsum_fixed_order_never_ties), a repeated index inside an operand is delegated to tf.einsum, never mis-computed (einsum_repeated_index_delegates). Factorised / cached strategies as algebra (Model/Factorise.lean, Props/C05c.lean, any commutative ring with conjugation, any sizes): params_vector_row_major, cached_eq_direct (+ helicity sum), factor_eq_direct / factor_total_eq_direct / factor_eq_cached - the cached_amp / base_factor forms equal the direct multilinear expression sum_chains prod_decays (sum_ls g_ls part_ls); cached_int_eq_direct - the cached integral sum_ab p_a conj(p_b) M_ab equals sum_events w |A|^2 GIVEN the cached tensors do not depend on the varied parameters (explicit hypothesis = fixed line-shape parameters; counterexample without it), cached_int_self_conjugate, int_matrix_entry_batch_additive. The models are tied to the code by exact comparison on integer-valued float64/complex128 tensors: einsum over every expression the amplitude builder emits for a zoo of decay structures plus seeded random expressions (ordered_indices bit-for-bit in IEEE doubles), build_params_vector / build_angle_amp_matrix / cached_amp / build_amp2s / FactorAmplitudeModel.get_amp_list / build_int_matrix / cached_int_mc / ModelCachedInt driven on a stub decay group; tf_pwa.einsum.einsum is compared with numpy.einsum directly and the cached functions with a numpy evaluation of the direct expressions. The remaining strategies (Model/FactoriseY.lean, Props/C05d.lean): mask_all_then_restore - temp_total_gls_one (save all flags, set all, restore all) leaves the mask_factor flag of EVERY object unchanged for any visiting sequence with repetitions (decay objects shared by several chains) and any body, masked_during_body, mask_part_visits; fused_final_flags - the one-loop variant (seeded change C05-03) leaves exactly the objects visited at least twice masked, hence fused_restores_without_sharing and fused_breaks_on_shared; cached_shape_eq_direct - for any commutative ring, any decay table with any sharing pattern, any number of chains / decays / ls terms, any couplings and totals at caching time, any chains_idx / cached_shape_idx without repeated entries: CachedShapeAmplitudeModel.pdf on the tensors stored by CachedShapePreProcessor (params vector under the mask times the angular cache; couplings-only vector from get_all_factor at evaluation) equals plain evaluation sum_chains sum_k pv_k ang_k GIVEN barrier factors and propagators of the cached chains are the same at caching and at evaluation time (counter-example without; duplicate-entry branch shown); cached_shape_eq_multilinear - for product-form angular caches that value is sum_chains total rs prod_decays sum_ls g_ls bf_ls part_ls; cache_independent_of_couplings - the cached tensor is the amplitude with every coupling of every chain and decay set to one; cached_shape_session - caching then evaluating with whatever flags the protocol left = plain evaluation (false for the fused loop on the 4-body cascade, kernel-checked); call_value_independent_of_history - the id()-switch of AbsPDF.__call__ as a state machine over calls (any object identities incl. reuse, set_params and chain selections in between, no_id_cached): every call returns pdf(current parameters, data) provided cached_fun and pdf agree as functions, switch_selects_impl says which implementation runs, stale-closure counter-example; p4_directly_eq_default (same cal_angle, same parity map, same resolved cp_trans: identical pipelines; p4_directly_eq_default_config: cp_trans resolved from the same data: entry with the same default on both sides; the bare preprocessor default differs - witness), cp_flip_commutes_with_batching, cached_angle_eq_base_factor (+ the parameter-dependent variant with its hypothesis and counter-example). Tied to the code by exact comparison, on integer-valued tensors, of the real temp_total_gls_one, CachedShapePreProcessor.build_cached, CachedShapeAmplitudeModel.get_cached_shape_idx / pdf (stub decay groups with shared decay objects running the real HelicityDecay.get_g_ls / set_ls and DecayChain.get_amp_total / get_all_factor; couplings changed after caching, floating chains, partial and reordered selections, user cached_shape_idx) and of the real AbsPDF.__init__ / __call__ / set_params (with and without the real WrapFun) with the Lean model; numpy oracle for the direct multilinear expression; the real CachedShapeAmplitudeModel on the 4-body cascade with ALL couplings (and a floating mass / width next to the cached chain) changed after the cache was built. Every data: strategy (cached_amp, cached_shape, base_factor, cached_angle, p4_directly, lazy_call, use_tf_function, jit_compile, no_id_cached, cached_int / cached_amp / cfit cached likelihoods) is compared with plain eager evaluation on the zoo (1e-10 densities, 1e-8 NLL and gradient).",
+    "note": "Proved for all inputs: the complete einsum routine (hypotheses: no repeated index inside an operand; consistent positive shapes; valid path), the algebra of the cached / factorised amplitude and of the cached integral. Still validated only: (einsum) that the order values of ordered_indices increase along the output indices - a fact about IEEE doubles, Lean's Float is opaque - checked bit-for-bit and by a direct monotonicity test on every program; empty tensors (a dimension 0); that opt_einsum's path reduces the operands to one; TensorFlow kernels as array semantics. (strategies) the list model of Factorise.lean against TensorFlow reshape / broadcasting is validated by exact correspondence on a stub decay group; that the real DecayGroup serves tensors with the documented axes (m_dep = [g_ls*bf per decay ..., total*propagators], angular cache in split_gls order), factorAmp additivity over inner helicities; for cached_shape the hypothesis 'fixed line shape' is the code's own is_fixed_shape test (validated on the cascade with one floating resonance); for the id()-switch that WrapFun(pdf) equals pdf as a function (TensorFlow tracing; the real WrapFun runs in the correspondence) and LazyCall.eval; for p4_directly / cached_angle that the real stages are the functions of the composition lemmas (the theorems there are wiring identities: which stage may depend on the parameters, how cp_trans is resolved); tf.function / XLA equals eager, the LazyCall pipeline, the cached-integral and cached-amplitude likelihood objects - runtime behaviour of TensorFlow, checked on a zoo of five 3-body structures and the 4-body cascade (spin 0, 1/2, 1, 3/2, 2; two of them with parity-violating decays and events of both charges, once with cp_trans False = helicity flip inside the amplitude and once with cp_trans True = parity-transformed momenta), with non-trivial per-event extras everywhere a strategy could drop them (event weights, background sample, charge_conjugation, eff_value / bg_value); per-charge residuals are recorded in the evidence. Known findings reproduced on every run until their patches land: einsum order ties (wrong tensor, hash-seed dependent), Model_cfit_cached ignoring the efficiency in the normalisation integral, WrapFun cache key. Trusted: Lean kernel, standard axioms, the harness, opt_einsum paths as inputs.",
+    "technique": "Lean 4 proof (finite-sum algebra over a commutative semiring / ring with conjugation, induction over operand lists and contraction paths, row-major layout and re-indexing lemmas, fold invariants for size_map) + exact differential correspondence with the implementation on integer tensors (einsum; cached / factorised builders on a stub decay group; cached_shape preprocessor + model and the mask protocol on stub groups with shared decay objects; AbsPDF.__call__ histories) + state-machine induction (flag table, call histories) + direct oracle search (numpy.einsum; numpy evaluation of the direct multilinear expression; eager evaluation for the strategies)",
 }
